@@ -147,24 +147,60 @@ def r2_numerals(prog: Program, rep: Report):
               scenario="numerals are emitted in the wrong order or with wrong multiplicities")
 
 
-def r3_arg_sort(prog: Program, rep: Report):
-    rep.rule("C19.R3", "arg_sort by delegation: it returns sorted(range(len(elements)), key=<elements[i]>, reverse=<the parameter>) "
-             "unmodified, so stability in both directions is the documented behaviour of sorted(); reversing an ascending "
+def r3_arg_sort(prog: Program, rep: Report, rule: str = "C19.R3"):
+    from ..flow import Flow
+    rep.rule(rule, "arg_sort by delegation: it returns sorted(range(len(elements)), key=<elements[i]>, reverse=<the parameter>) "
+             "unmodified, so stability in both directions is the documented behaviour of sorted(); the keys compared are the "
+             "elements themselves (a typed copy such as array('d', elements) compares converted values); reversing an ascending "
              "stable sort is recognisably wrong (ties come out in reverse index order)", floor=1)
     f = prog.func("arg_sort", GENERIC_MOD)
     rep.fn(f)
     el, rev = f.params[0], f.params[1]
     rets = returns_of(f.node)
     ok = False
+    keyed_on = None
     if len(rets) == 1 and isinstance(rets[0].value, ast.Call) and src(rets[0].value.func) == "sorted":
         c = rets[0].value
         key = next((k.value for k in c.keywords if k.arg == "key"), None)
         r = next((k.value for k in c.keywords if k.arg == "reverse"), None)
-        ok = len(c.args) == 1 and src(c.args[0]) == f"range(len({el}))" and isinstance(key, ast.Lambda) \
-            and isinstance(key.body, ast.Subscript) and src(key.body.value) == el and src(key.body.slice) == key.args.args[0].arg \
-            and r is not None and src(r) == rev
+        if isinstance(key, ast.Lambda) and isinstance(key.body, ast.Subscript) and isinstance(key.body.value, ast.Name) \
+                and key.args.args and src(key.body.slice) == key.args.args[0].arg:
+            keyed_on = key.body.value
+        elif isinstance(key, ast.Attribute) and key.attr == "__getitem__" and isinstance(key.value, ast.Name):
+            keyed_on = key.value
+        rng_ok = len(c.args) == 1 and isinstance(c.args[0], ast.Call) and src(c.args[0].func) == "range" and len(c.args[0].args) == 1 \
+            and isinstance(c.args[0].args[0], ast.Call) and src(c.args[0].args[0].func) == "len" \
+            and src(c.args[0].args[0].args[0]) in (el, keyed_on.id if keyed_on is not None else el)
+        ok = rng_ok and keyed_on is not None and keyed_on.id == el and r is not None and src(r) == rev
+        if rng_ok and keyed_on is not None and keyed_on.id != el and r is not None and src(r) == rev:
+            # the keys are read from a local: what is it?
+            flow = Flow(f.node)
+            convs = []
+            plain = True
+            for d in flow.defs_of(keyed_on):
+                v = d.value
+                if isinstance(v, ast.Name) and v.id == el:
+                    continue
+                plain = False
+                if isinstance(v, ast.Call) and any(isinstance(x, ast.Name) and x.id == el for x in ast.walk(v)):
+                    name = src(v.func)
+                    if name.split(".")[-1] in ("array", "asarray", "fromiter", "float", "int", "str") or \
+                            (name in ("list", "tuple") and v.args and isinstance(v.args[0], ast.Call) and src(v.args[0].func) == "map"):
+                        convs.append(v)
+                    elif name in ("list", "tuple") and len(v.args) == 1 and src(v.args[0]) == el:
+                        continue            # a plain copy keeps the elements
+                    else:
+                        convs.append(None)
+            if convs and all(x is not None for x in convs):
+                rep.viol(rule, f, "delegates", f"the keys are read from `{src(convs[0])}`, a converted copy of the elements: values "
+                         "that differ only beyond the precision / domain of the conversion compare equal",
+                         scenario="arg_sort([2**53 + 1, 2**53]) returns [0, 1]: SortedMap([(2**53 + 1, 'a'), (2**53, 'b')]) iterates "
+                                  "descending", line=convs[0].lineno)
+                return
+            if plain or not convs:
+                ok = True
     if ok:
-        rep.ok("C19.R3", f, "delegates", f"sorted(range(len({el})), key={el}[i], reverse={rev})")
+        rep.ok(rule, f, "delegates", f"sorted(range(len({el})), key={el}[i], reverse={rev})")
         return
     reversal = [n for n in ast.walk(f.node) if (isinstance(n, ast.Call) and ((isinstance(n.func, ast.Attribute) and n.func.attr == "reverse")
                                                                             or src(n.func) == "reversed"))
@@ -172,11 +208,11 @@ def r3_arg_sort(prog: Program, rep: Report):
                     and const_value(n.slice.step) == -1)]
     passes_rev = any(isinstance(n, ast.keyword) and n.arg == "reverse" and src(n.value) == rev for n in ast.walk(f.node))
     if reversal and not passes_rev:
-        rep.viol("C19.R3", f, "delegates", f"`{src(reversal[0])}` reverses an ascending stable sort instead of passing reverse= to "
+        rep.viol(rule, f, "delegates", f"`{src(reversal[0])}` reverses an ascending stable sort instead of passing reverse= to "
                  f"sorted(): equal keys come out in descending index order, which is not the stable descending permutation",
                  scenario="arg_sort([1, 1, 2], reverse=True) returns [2, 1, 0] instead of [2, 0, 1]", line=reversal[0].lineno)
     else:
-        rep.unrec("C19.R3", f, "delegates", "arg_sort is not the plain delegation to sorted(range(n), key=..., reverse=reverse)")
+        rep.unrec(rule, f, "delegates", "arg_sort is not the plain delegation to sorted(range(n), key=..., reverse=reverse)")
 
 
 def r4_window_scan(prog: Program, rep: Report):
